@@ -55,12 +55,24 @@ LSpec == IF Kind = "obj" THEN ListS(ElemS, 0, 2)                           \* th
          ELSE IF Kind = "list2" THEN ListS(ElemS, 2, 5) ELSE ListS(ElemS, 1, 3)
 \* k2 of the dict is noneable with a non-None default, k2 of the object is noneable AND frozen to 1
 DSpec == DictS(<< <<1, IntS(0, NONE, FALSE)>>, <<2, Dflt(NonOf(I0), IntV(1))>>, <<3, LSpec>>, <<0, StrS>> >>)
-OSpec == DictS(<< <<1, IntS(0, NONE, FALSE)>>, <<2, Frz(NonOf(I0), IntV(1))>>, <<3, LSpec>>, <<4, NonOf(StrS)>> >>)
+\* k10 of the object is a list that must stay empty (size = 0)
+OSpec == DictS(<< <<1, IntS(0, NONE, FALSE)>>, <<2, Frz(NonOf(I0), IntV(1))>>, <<3, LSpec>>, <<4, NonOf(StrS)>>,
+                  <<10, ListS(ElemS, 0, 0)>> >>)
 \* Kind = "nest": a holder object H {k1: Object(A) required, k2: Int default 1} over the classes
 \* A (id 11) {k1: Object(B) required, k2: Int default 1} and B (id 12) {k1: Int(min 0) required, k2: Str noneable}
 BSpec == DictS(<< <<1, IntS(0, NONE, FALSE)>>, <<2, NonOf(StrS)>> >>)
 ASpec == DictS(<< <<1, ObjS(12)>>, <<2, Dflt(I0, IntV(1))>> >>)
-HSpec == DictS(<< <<1, ObjS(11)>>, <<2, Dflt(I0, IntV(1))>> >>)
+\* ... and k3: a Dict-typed field {k1: Int(min 0) required, k2: Int default 1}
+DTS == DictS(<< <<1, IntS(0, NONE, FALSE)>>, <<2, Dflt(I0, IntV(1))>> >>)
+HSpec == DictS(<< <<1, ObjS(11)>>, <<2, Dflt(I0, IntV(1))>>, <<3, DTS>> >>)
+\* Values that are containers which already carry a value spec of their own:
+\*   TD(mode, x): a pg.Dict bound to DTS, created in partial mode (1) or not (0), holding {k1: x, k2: 1}
+\*   TL(variant, xs): a pg.List bound to the field's own list spec (0) or to the same spec with min_size 0 (1)
+TD(mode, x) == V("tdict", mode, << <<1, x>>, <<2, IntV(1)>> >>)
+TL(variant, xs) == V("tlist", variant, xs)
+IsTyped(v) == v.t \in {"tdict", "tlist"}
+Plain(v) == IF v.t = "tdict" THEN DictV(v.xs) ELSE IF v.t = "tlist" THEN ListV(v.xs) ELSE v
+TypedKey == 3
 BVal(x) == V("obj", 12, << <<1, x>>, <<2, VNone>> >>)
 AVal(b) == V("obj", 11, << <<1, b>>, <<2, IntV(1)>> >>)
 RECURSIVE HasMissing(_)
@@ -77,19 +89,23 @@ ElemPool == IF Small THEN {IntV(0), IntV(3), StrV(1)}
             ELSE {IntV(0), IntV(1), IntV(2), IntV(3), IntV(-1), StrV(1), VNone}
 ListPool == IF Small THEN {ListV(<<>>), ListV(<<IntV(0)>>), ListV(<<IntV(0), IntV(3)>>)}
             ELSE {ListV(<<>>), ListV(<<IntV(1)>>), ListV(<<IntV(0), IntV(2)>>), ListV(<<IntV(1), IntV(3)>>),
-                  ListV(<<IntV(0), IntV(0), IntV(0), IntV(0)>>), ListV(<<StrV(1)>>)}
+                  ListV(<<IntV(0), IntV(0), IntV(0), IntV(0)>>), ListV(<<StrV(1)>>),
+                  TL(0, <<IntV(1)>>), TL(0, <<IntV(0), IntV(2)>>), TL(1, <<>>)}
 NestPool == {AVal(BVal(IntV(0))), AVal(BVal(IntV(2))), AVal(BVal(VMissing)), AVal(VMissing), BVal(IntV(0)),
-             IntV(0), IntV(-1), VNone, VMissing}
+             IntV(0), IntV(-1), VNone, VMissing,
+             TD(0, IntV(0)), TD(1, IntV(2)), TD(1, VMissing),
+             DictV(<< <<1, IntV(0)>> >>), DictV(<<>>), DictV(<< <<1, IntV(-1)>> >>), DictV(<< <<1, IntV(0)>>, <<9, IntV(0)>> >>)}
 FieldPool == IF Kind = "nest" THEN NestPool
              ELSE (IF Small THEN {IntV(0), IntV(-1), StrV(1), VNone, VMissing}
                    ELSE {IntV(0), IntV(1), IntV(2), IntV(-1), StrV(1), StrV(2), VNone, VMissing}) \cup ListPool
 DictKeys == IF Small THEN {1, 2, 3, 7, 9} ELSE {1, 2, 3, 7, 8, 9}           \* 7, 8 dynamic; 9 undeclared
-ObjKeys == {1, 2, 3, 4, 9}
-KeysOf == IF Kind = "dict" THEN DictKeys ELSE IF Kind = "nest" THEN {1, 2, 9} ELSE ObjKeys
+ObjKeys == {1, 2, 3, 4, 9, 10}
+KeysOf == IF Kind = "dict" THEN DictKeys ELSE IF Kind = "nest" THEN {1, 2, 3, 9} ELSE ObjKeys
 Scopes == {"N", "T", "F"}                \* no allow_partial scope / allow_partial(True) / allow_partial(False)
 Eff(sc) == IF sc = "N" THEN InitPartial ELSE sc = "T"
 Seqs2(Q) == {<<>>} \cup {<<x>> : x \in Q} \cup {<<x, y>> : x \in Q, y \in Q}
 
+ConstFieldIdx == {j \in 1..Len(RootSpec.fields) : RootSpec.fields[j][1] > 0}
 ---------------------------------------------------------------------------
 (* Dict-like content *)
 Put(c, k, v) == LET ks == SortedKeys({c.xs[i][1] : i \in 1..Len(c.xs)} \cup {k})
@@ -99,6 +115,20 @@ FR(okk, c) == [ok |-> okk, c |-> c, dc |-> FALSE]
 \* don't-care outcome: the content is unchanged, the call may or may not raise (out = "any")
 FRAny(c) == [ok |-> FALSE, c |-> c, dc |-> TRUE]
 
+\* A (possibly incomplete) dict content d written into a Dict-typed field f under effective allow_partial p:
+\* a MISSING member / an absent required key is acceptable iff p, and is then stored as MISSING
+DAccP(f, d, p) ==
+  /\ \A i \in 1..Len(d.xs) : /\ MatchIdx(f, d.xs[i][1]) # 0
+                               /\ IF d.xs[i][2] = VMissing THEN p \/ HasDefault(f.fields[MatchIdx(f, d.xs[i][1])][2])
+                                  ELSE Acc(f.fields[MatchIdx(f, d.xs[i][1])][2], d.xs[i][2]) = "yes"
+  /\ \A j \in 1..Len(f.fields) : (f.fields[j][1] > 0 /\ ~HasKey(d, f.fields[j][1])) => (p \/ HasDefault(f.fields[j][2]))
+DAppP(f, d, p) ==
+  LET ks == SortedKeys({k \in {f.fields[j][1] : j \in 1..Len(f.fields)} : k > 0} \cup {d.xs[i][1] : i \in 1..Len(d.xs)})
+  IN DictV([n \in 1..Len(ks) |->
+        LET g == f.fields[MatchIdx(f, ks[n])][2] IN
+        <<ks[n], IF HasKey(d, ks[n]) /\ ValAt(d, ks[n]) # VMissing THEN App(g, ValAt(d, ks[n]))
+                 ELSE IF HasDefault(g) THEN App(g, RefDefault(g)) ELSE VMissing>>])
+
 \* one field write `c[k] = v` under effective allow_partial p (Appendix F: Dict.__setitem__)
 FW(c, k, v, p) ==
   LET j == MatchIdx(RootSpec, k) IN
@@ -107,12 +137,17 @@ FW(c, k, v, p) ==
   ELSE LET f == RootSpec.fields[j][2]
            const == RootSpec.fields[j][1] > 0
        IN IF v = VMissing /\ ~const THEN FR(TRUE, IF HasKey(c, k) THEN Rem(c, k) ELSE c)    \* MISSING deletes a dynamic key
+          ELSE IF v = VMissing /\ f.t = "Dict" /\ f.fields # <<>> /\ ~HasDefault(f)
+               THEN (IF DAccP(f, DictV(<<>>), p)                                         \* a Dict-typed field falls back to the
+                     THEN FR(TRUE, Put(c, k, DAppP(f, DictV(<<>>), p))) ELSE FR(FALSE, c))  \* dict of its members' defaults (partial => needs p)
           ELSE IF v = VMissing
                THEN (IF HasDefault(f) THEN FR(TRUE, Put(c, k, App(f, RefDefault(f))))     \* MISSING restores the default
                      ELSE IF p THEN FR(TRUE, Put(c, k, VMissing))                         \* ... or leaves the field missing when partial
                      ELSE FR(FALSE, c))                                                   \* ... else ValueError
-          ELSE IF Acc(f, v) = "yes" /\ (p \/ ~HasMissing(v))            \* a partial value needs allow_partial
-               THEN FR(TRUE, Put(c, k, App(f, v)))
+          ELSE IF f.t = "Dict" /\ f.fields # <<>> /\ Plain(v).t = "dict"
+               THEN (IF DAccP(f, Plain(v), p) THEN FR(TRUE, Put(c, k, DAppP(f, Plain(v), p))) ELSE FR(FALSE, c))
+          ELSE IF Acc(f, Plain(v)) = "yes" /\ (p \/ ~HasMissing(v))     \* a partial value needs allow_partial
+               THEN FR(TRUE, Put(c, k, App(f, Plain(v))))
           ELSE FR(FALSE, c)
 
 \* Avoid = TRUE also stays away from rejected writes to a field that holds a symbolic child (open finding C03-F3:
@@ -192,6 +227,7 @@ StepF(r, sc, a) == IF r.dc THEN /\ out' = "any" /\ alts' = {r.c} /\ root' = r.c 
 FSet(name) == \E k \in P(KeysOf), v \in P(FieldPool), sc \in P(Scopes) :
                  /\ (sc = "N" \/ HasMissing(v))                     \* the scope matters for MISSING / partial values only
                  /\ ~(name = "OSetAttr" /\ k = 9)                    \* o.k9 = v creates a plain Python attribute
+                 /\ (IsTyped(v) => k = TypedKey)                     \* a typed container is offered to the field of its type
                  /\ AvoidOK(FW(root, k, v, Eff(sc)), k)
                  /\ StepF(FW(root, k, v, Eff(sc)), sc, <<name, sc, k, v>>)
 DSet == "dset" \in Acts /\ Kind = "dict" /\ FSet("DSet")             \* d[k] = v   (v = MISSING: the marker assignment)
@@ -199,6 +235,7 @@ DSetAttr == "dset" \in Acts /\ Kind = "dict" /\ FSet("DSetAttr")     \* d.k = v
 OSetAttr == "oset" \in Acts /\ Kind \in {"obj", "nest"} /\ FSet("OSetAttr")      \* o.k = v    (k9: not generated, a plain attribute)
 Rebind1(name) == \E k \in P(KeysOf), v \in P(FieldPool), sc \in P(Scopes) :
                  /\ (sc = "N" \/ HasMissing(v))
+                 /\ (IsTyped(v) => k = TypedKey)
                  /\ AvoidOK(FW(root, k, v, Eff(sc)), k)
                  /\ StepF(FW(root, k, v, Eff(sc)), sc, <<name, sc, <<k>>, v>>)
 DRebind1 == "rebind" \in Acts /\ Kind = "dict" /\ Rebind1("Rebind1")
@@ -216,23 +253,33 @@ DClear == /\ "ddel" \in Acts /\ Kind = "dict"
                IN (~Avoid \/ r.ok) /\ StepF(IF r.ok THEN r ELSE FR(FALSE, root), sc, <<"DClear", sc>>)
 DSetDefault == /\ "dset" \in Acts /\ Kind = "dict"
                /\ \E k \in P(KeysOf), v \in P(FieldPool \ {VMissing}) :
-                    AvoidOK(FW(root, k, v, InitPartial), k) /\ StepF(IF HasKey(root, k) /\ ValAt(root, k) # VMissing THEN FR(TRUE, root) ELSE FW(root, k, v, InitPartial),
+                    (IsTyped(v) => k = TypedKey) /\ AvoidOK(FW(root, k, v, InitPartial), k) /\ StepF(IF HasKey(root, k) /\ ValAt(root, k) # VMissing THEN FR(TRUE, root) ELSE FW(root, k, v, InitPartial),
                           "N", <<"DSetDefault", "N", k, v>>)
 \* batches of two field writes on different keys: update / |= / rebind with two paths
 BatchPool == IF Small THEN {IntV(0), IntV(-1), StrV(1)} ELSE FieldPool \ {VMissing}
-Batch2(name) == \E k1 \in P(KeysOf), k2 \in P(KeysOf), v1 \in P(BatchPool), v2 \in P(BatchPool) :
+Batch2(name) == \E k1 \in P(KeysOf), k2 \in P(KeysOf), v1 \in P(BatchPool), v2 \in P(BatchPool), sc \in P(Scopes) :
   /\ k1 # k2
-  /\ AvoidOK(FW(root, k1, v1, InitPartial), k1) /\ AvoidOK(FW(root, k2, v2, InitPartial), k2)
-  /\ LET r1 == FW(root, k1, v1, InitPartial)
-         r2 == FW(root, k2, v2, InitPartial)
-         both == FW(r1.c, k2, v2, InitPartial)
-     IN IF r1.ok /\ r2.ok THEN Step(TRUE, both.c, {both.c}, "N", <<name, "N", k1, v1, k2, v2>>)
+  /\ (sc = "N" \/ (~Small /\ (HasMissing(v1) \/ HasMissing(v2))))      \* the scope matters for partial values only
+  /\ (IsTyped(v1) => k1 = TypedKey) /\ (IsTyped(v2) => k2 = TypedKey)
+  /\ AvoidOK(FW(root, k1, v1, Eff(sc)), k1) /\ AvoidOK(FW(root, k2, v2, Eff(sc)), k2)
+  /\ LET r1 == FW(root, k1, v1, Eff(sc))
+         r2 == FW(root, k2, v2, Eff(sc))
+         both == FW(r1.c, k2, v2, Eff(sc))
+     IN IF r1.ok /\ r2.ok THEN Step(TRUE, both.c, {both.c}, sc, <<name, sc, k1, v1, k2, v2>>)
         ELSE Step(FALSE, IF r1.ok THEN r1.c ELSE root,                                       \* as coded: in the given order
-                  {root} \cup (IF r1.ok THEN {r1.c} ELSE {}) \cup (IF r2.ok THEN {r2.c} ELSE {}), "N", <<name, "N", k1, v1, k2, v2>>)
+                  {root} \cup (IF r1.ok THEN {r1.c} ELSE {}) \cup (IF r2.ok THEN {r2.c} ELSE {}), sc, <<name, sc, k1, v1, k2, v2>>)
 DUpdate == "batch" \in Acts /\ Kind = "dict" /\ Batch2("DUpdate")
 DIor == "batch" \in Acts /\ Kind = "dict" /\ Batch2("DIor")
 DRebind2 == "batch" \in Acts /\ Kind = "dict" /\ Batch2("Rebind2")
-ORebind2 == "batch" \in Acts /\ Kind = "obj" /\ Batch2("Rebind2")
+ORebind2 == "batch" \in Acts /\ Kind \in {"obj", "nest"} /\ Batch2("Rebind2")
+\* the constructor as a write path: a new container of the same type is built from the current content without the
+\* argument k (nothing is stored in this container; the driver inspects the new one)
+CtorOmit == /\ "ctor" \in Acts /\ Kind \in {"dict", "obj", "nest"}
+            /\ \E k \in P({RootSpec.fields[j][1] : j \in ConstFieldIdx}), sc \in P(Scopes) :
+                 LET f == RootSpec.fields[FieldIdx(RootSpec, k)][2]
+                     okk == HasDefault(f) \/ Eff(sc)
+                     rest == IF \E i \in 1..Len(root.xs) : root.xs[i][1] # k /\ HasMissing(root.xs[i][2]) THEN Eff(sc) ELSE TRUE
+                 IN Step(okk /\ rest, root, {root}, "N", <<"CtorOmit", sc, k>>)
 
 \* ---- Kind = "nest": nested objects, partial values and non-partial holders
 \* the free-standing object `ext` (it has a parent of its own, so the holder stores a copy) is written into the holder
@@ -305,19 +352,20 @@ Next == \/ DSet \/ DSetAttr \/ OSetAttr \/ DRebind1 \/ ORebind1 \/ DDel \/ DPop 
         \/ DUpdate \/ DIor \/ DRebind2 \/ ORebind2
         \/ LSet \/ LRebindSet \/ LRebindAppend \/ LRebindInsert \/ LRebind2 \/ LDel \/ LPop \/ LRemove \/ LClear
         \/ LDelSlice \/ LSetSliceA \/ LAppend \/ LInsert \/ LExtendA \/ LIadd \/ LImul
-        \/ LDelSliceX \/ LSetSliceX \/ NSetExtAttr \/ NSetExtRebind \/ NLeaf
+        \/ LDelSliceX \/ LSetSliceX \/ NSetExtAttr \/ NSetExtRebind \/ NLeaf \/ CtorOmit
 
 L1 == ListV(<<IntV(1)>>)
 L3 == ListV(<<IntV(1), IntV(2), IntV(0)>>)
 InitRoots ==
   CASE Kind = "list" -> {L1, ListV(<<IntV(1), IntV(2)>>), L3}
     [] Kind = "list2" -> {L3, ListV(<<IntV(1), IntV(2), IntV(0), IntV(1)>>), ListV(<<IntV(1), IntV(2), IntV(0), IntV(1), IntV(2)>>)}
-    [] Kind = "nest" -> {DictV(<< <<1, AVal(BVal(IntV(1)))>>, <<2, IntV(1)>> >>)}
+    [] Kind = "nest" -> {DictV(<< <<1, AVal(BVal(IntV(1)))>>, <<2, IntV(1)>>, <<3, DictV(<< <<1, IntV(0)>>, <<2, IntV(1)>> >>)>> >>)}
+                        \cup (IF InitPartial THEN {DictV(<< <<1, VMissing>>, <<2, IntV(1)>>, <<3, DictV(<< <<1, VMissing>>, <<2, IntV(1)>> >>)>> >>)} ELSE {})
     [] Kind = "dict" -> {DictV(<< <<1, IntV(0)>>, <<2, IntV(1)>>, <<3, l>> >>) : l \in {L1, L3}}
                         \cup {DictV(<< <<1, IntV(2)>>, <<2, IntV(0)>>, <<3, L1>>, <<7, StrV(1)>> >>)}
                         \cup (IF InitPartial THEN {DictV(<< <<1, VMissing>>, <<2, IntV(1)>>, <<3, L1>> >>)} ELSE {})
-    [] Kind = "obj" -> {DictV(<< <<1, IntV(0)>>, <<2, IntV(1)>>, <<3, l>>, <<4, w>> >>) : l \in {L1, ListV(<<IntV(1), IntV(2)>>)}, w \in {VNone, StrV(1)}}
-                        \cup (IF InitPartial THEN {DictV(<< <<1, VMissing>>, <<2, IntV(1)>>, <<3, L1>>, <<4, VNone>> >>)} ELSE {})
+    [] Kind = "obj" -> {DictV(<< <<1, IntV(0)>>, <<2, IntV(1)>>, <<3, l>>, <<4, w>>, <<10, ListV(<<>>)>> >>) : l \in {L1, ListV(<<IntV(1), IntV(2)>>)}, w \in {VNone, StrV(1)}}
+                        \cup (IF InitPartial THEN {DictV(<< <<1, VMissing>>, <<2, IntV(1)>>, <<3, L1>>, <<4, VNone>>, <<10, ListV(<<>>)>> >>)} ELSE {})
 Init == /\ root \in InitRoots /\ pok = InitPartial /\ out = "ok" /\ alts = {root} /\ act = <<"Init">>
         /\ ext = IF Kind = "nest" THEN AVal(BVal(IntV(0))) ELSE VNone
 Spec == Init /\ [][Next]_vars
@@ -333,12 +381,15 @@ RequiredPresent(c, partial) == \A j \in ConstFields :
    HasKey(c, RootSpec.fields[j][1]) /\ (ValAt(c, RootSpec.fields[j][1]) = VMissing => partial)
 FrozenHeld(c) == \A j \in ConstFields : RootSpec.fields[j][2].frz =>
    HasKey(c, RootSpec.fields[j][1]) /\ ValAt(c, RootSpec.fields[j][1]) = RootSpec.fields[j][2].dflt
-MembersOK(c) == \A i \in 1..Len(c.xs) :
-   c.xs[i][2] = VMissing \/ MemberOK(RootSpec.fields[MatchIdx(RootSpec, c.xs[i][1])][2], c.xs[i][2])
+MemberOKP(f, v, partial) == IF f.t = "Dict" /\ f.fields # <<>> /\ v.t = "dict"
+                            THEN DAccP(f, v, partial) /\ DAppP(f, v, partial) = v        \* a nested typed dict may be partial too
+                            ELSE MemberOK(f, v)
+MembersOK(c, partial) == \A i \in 1..Len(c.xs) :
+   c.xs[i][2] = VMissing \/ MemberOKP(RootSpec.fields[MatchIdx(RootSpec, c.xs[i][1])][2], c.xs[i][2], partial)
 ListOK(l) == SizeOK(Len(l.xs)) /\ \A i \in 1..Len(l.xs) : MemberOK(ElemS, l.xs[i])
 ConformsTo(c, partial) ==
   IF IsListKind THEN ListOK(c)
-  ELSE c.t = "dict" /\ DeclaredOnly(c) /\ RequiredPresent(c, partial) /\ FrozenHeld(c) /\ MembersOK(c)
+  ELSE c.t = "dict" /\ DeclaredOnly(c) /\ RequiredPresent(c, partial) /\ FrozenHeld(c) /\ MembersOK(c, partial)
        /\ (HasMissing(c) => partial)                      \* nothing partial at any depth unless explicitly made partial
 Conforms == ConformsTo(root, pok)                       \* INVARIANT: never a state the schema rejects
 AltsConform == \A c \in alts : ConformsTo(c, pok)       \* ... whichever admissible prefix a rejected batch kept
